@@ -93,26 +93,40 @@ impl<Error: Send + 'static> DecodeScheduler<Error> {
 
 	pub fn start(mut self) {
 		std::thread::spawn(move || loop {
+			#[cfg(feature = "verif-hooks")]
+			crate::verif::sync_point("decoder.gate");
 			match self.run() {
 				Ok(result) => match result {
 					NextStep::Continue => {}
+					#[cfg(feature = "verif-hooks")]
+					NextStep::Wait if { crate::verif::sync_point("yield:decoder.wait"); false } => {}
 					NextStep::Wait => std::thread::sleep(DECODER_THREAD_SLEEP_DURATION),
 					NextStep::End => break,
 				},
 				Err(error) => {
+					#[cfg(feature = "verif-hooks")]
+					crate::verif::sync_point("stream.error.push");
 					self.error_producer.push(error).ok();
+					#[cfg(feature = "verif-hooks")]
+					crate::verif::sync_point("stream.error_flag.store");
 					self.shared.encountered_error.store(true, Ordering::SeqCst);
 				}
 			}
 		});
+		#[cfg(feature = "verif-hooks")]
+		crate::verif::emit(crate::verif::Event::ThreadSpawned);
 	}
 
 	pub fn run(&mut self) -> Result<NextStep, Error> {
 		// if the sound was manually stopped, end the thread
 		if self.shared.state() == PlaybackState::Stopped {
+			#[cfg(feature = "verif-hooks")]
+			crate::verif::emit(crate::verif::Event::ThreadExit);
 			return Ok(NextStep::End);
 		}
 		// if the frame ringbuffer is full, sleep for a bit
+		#[cfg(feature = "verif-hooks")]
+		crate::verif::sync_point("stream.ring.is_full");
 		if self.frame_producer.is_full() {
 			return Ok(NextStep::Wait);
 		}
@@ -128,6 +142,8 @@ impl<Error: Send + 'static> DecodeScheduler<Error> {
 			self.seek_to(position)?;
 		}
 		let frame = self.frame_at_index(self.transport.position)?;
+		#[cfg(feature = "verif-hooks")]
+		crate::verif::sync_point("stream.ring.push");
 		self.frame_producer
 			.push(TimestampedFrame {
 				frame,
@@ -136,7 +152,11 @@ impl<Error: Send + 'static> DecodeScheduler<Error> {
 			.expect("could not push frame to frame producer");
 		self.transport.increment_position(self.num_frames);
 		if !self.transport.playing {
+			#[cfg(feature = "verif-hooks")]
+			crate::verif::sync_point("stream.reached_end.store");
 			self.shared.reached_end.store(true, Ordering::SeqCst);
+			#[cfg(feature = "verif-hooks")]
+			crate::verif::emit(crate::verif::Event::ThreadExit);
 			return Ok(NextStep::End);
 		}
 		Ok(NextStep::Continue)
